@@ -34,6 +34,8 @@ def run(ctx, repo):
     ctx.rule('R2', 'gender -> normalize_gender and event -> upper() dominate every key use in the public grader methods')
     ctx.rule('R3', "find_age's clamping arm uses the last column index (len(ages) - 1)")
     ctx.rule('R4', 'grade roles: standard = best / factor; timed: standard / perf; field: perf / standard; timed kinds = {road, track}')
+    ctx.rule('R10', 'the event classifier gives every tabulated code the same kind in lower case (it sees the code before upper())')
+    ctx.rule('R9', 'at every covered (integer / half-integer) age the two columns selected by find_age (folded) hold numbers')
     ctx.rule('R7', 'the wrappers wma_age_grade / wma_age_factor / wma_world_best choose the same table for the same year and by default (folded)')
     ctx.rule('R8', 'normalize_gender maps m, M, male, Male, MALE / f, F, female, Female, FEMALE to m / f (folded)')
     ctx.rule('R6', 'memo transparency on the grader objects (they are shared between all callers)')
@@ -309,6 +311,111 @@ def run(ctx, repo):
         ctx.ok('R5', 'all JSON tables well-formed (%d factor cells)' % n_cells)
     ctx.extra['exhaustive'] = True
     wrapper_rules(ctx, repo)
+    covered_ages_rule(ctx, repo)
+    classifier_case_rule(ctx, repo)
+
+
+def covered_ages_rule(ctx, repo):
+    """R9: at every age a row covers (integer and half-integer ages from its first non-null column on), the two columns that find_age
+    selects both hold numbers: calculate_factor multiplies both cells whatever the weight, so a null neighbour with weight 0 still raises.
+    find_age is a pure function and is folded on the ages of each table."""
+    from .. import fold
+    ag = repo.module(AGE)
+    fa = ag.func('AgeGrader.find_age')
+    fc = fold.FuncConst(fa, dict(repo.folded(AGE)[0]))
+    n_cells = 0
+    for rel in ('athlib/wma/wma-data-2015.json', 'athlib/wma/wma-data-2023.json'):
+        d = repo.json(rel)
+        ages = d['ages']
+        cache = {}
+        bad = []
+        for g in ('m', 'f'):
+            for row in d.get(g) or []:
+                vals = row[3:]
+                nn = [i for i, v in enumerate(vals) if isinstance(v, (int, float))]
+                if not nn:
+                    continue
+                a = float(ages[nn[0]])
+                end = nn[0]
+                while end + 1 < len(vals) and isinstance(vals[end + 1], (int, float)):
+                    end += 1                  # the first contiguous block (a hole further right is rule R5's finding)
+                last = float(ages[end])
+                while a <= last:
+                    if a not in cache:
+                        try:
+                            cache[a] = fold.Folder().call(fc, [None, a if a != int(a) else int(a), ages], {})
+                        except Exception as e:
+                            raise AnalysisError('find_age is not foldable: %s: %s' % (type(e).__name__, e))
+                    ax, ax1 = cache[a][0], cache[a][1]
+                    n_cells += 1
+                    if not (isinstance(vals[ax], (int, float)) and isinstance(vals[ax1], (int, float))):
+                        bad.append((g, row[0], a if a != int(a) else int(a), ages[ax], ages[ax1]))
+                        break
+                    a += 0.5
+        if bad:
+            g, ev, a, c0, c1 = bad[0]
+            ctx.finding('R9', '%s::null neighbour column read inside the covered ages' % rel, rel, None,
+                        '%d rows of %s: at an age the row covers, find_age selects a column without a number; e.g. %s %s at age %s reads the columns of '
+                        'ages %s and %s, and calculate_factor multiplies both cells (the null one with weight 0): TypeError' % (
+                            len(bad), rel.split('/')[-1], g, ev, a, c0, c1), {'gender': g, 'event': ev, 'age': a})
+        else:
+            ctx.ok('R9', '%s: every covered age reads two numeric columns' % rel.split('/')[-1])
+    ctx.count('(row, age) cells whose two columns were checked', n_cells)
+    ctx.floor('covered-age cells', n_cells, 5000)
+
+
+def classifier_case_rule(ctx, repo):
+    """R10: calculate_factor / world_best classify the event code as given, before it is upper-cased for the table lookup.  For every
+    tabulated code the classifier (folded: a loop of pattern matches on constants) must give its lower-case spelling the same kind."""
+    from .. import fold
+    ag = repo.module(AGE)
+    cf_ = ag.func('AgeGrader.calculate_factor')
+    # is the classifier applied to the raw parameter?
+    evp = cf_.args.args[3].arg
+    raw_call = None
+    for st in cf_.body:
+        for c in ast.walk(st):
+            if isinstance(c, ast.Call) and call_name(c) == 'event_code_to_kind' and c.args and isinstance(c.args[0], ast.Name) and c.args[0].id == evp:
+                raw_call = c
+        if isinstance(st, ast.Assign) and isinstance(st.targets[0], ast.Name) and st.targets[0].id == evp and isinstance(st.value, ast.Call) \
+                and call_name(st.value) in ('upper', 'lower'):
+            break
+    if raw_call is None:
+        ctx.ok('R10', 'calculate_factor classifies the event after folding its case')
+        return
+    ek = ag.func('AgeGrader.event_code_to_kind')
+    env_ = dict(repo.folded(AGE)[0])
+    fc = fold.FuncConst(ek, env_)
+
+    def kind(code):
+        try:
+            return fold.Folder(importer=repo.folded(AGE)[1].importer).call(fc, [code], {})
+        except fold._Raise:
+            return '<raises>'
+        except fold.Unfoldable as e:
+            raise AnalysisError('event_code_to_kind is not foldable: %s' % e)
+    bad = []
+    n = 0
+    for rel in ('athlib/wma/wma-data-2015.json', 'athlib/wma/wma-data-2023.json'):
+        d = repo.json(rel)
+        for g in ('m', 'f'):
+            for row in d.get(g) or []:
+                k = row[0]
+                if not isinstance(k, str) or k.lower() == k:
+                    continue
+                n += 1
+                if kind(k) != kind(k.lower()):
+                    bad.append(k)
+    bad = sorted(set(bad))
+    ctx.count('tabulated codes whose lower-case spelling was classified', n)
+    ctx.floor('tabulated codes classified in both cases', n, 100)
+    if bad:
+        ctx.finding('R10', '%s::AgeGrader.calculate_factor::lower-case spellings refused by the classifier' % AGE, AGE, raw_call.lineno,
+                    'the event code is classified (event_code_to_kind) before it is upper-cased; %d tabulated codes are classified differently in '
+                    'lower case - mostly refused with ValueError - e.g. %s: codes differing only in letter case do not give the same factor'
+                    % (len(bad), ', '.join(repr(b.lower()) for b in bad[:6])), bad[0].lower())
+    else:
+        ctx.ok('R10', 'every tabulated code is classified alike in both cases (%d codes)' % n)
 
 
 def wrapper_rules(ctx, repo):
